@@ -71,6 +71,11 @@ enum Op {
 	WsHalfUpgrade(bool),
 	/// an upgrade request that the WebSocket handshake rejects (no Sec-WebSocket-Key)
 	WsBadHandshake,
+	/// the same HTTP operations as streams of one HTTP/2 connection (every stream is a request of its own)
+	H2Quick,
+	H2Hold,
+	/// drop the response future of a held stream: the stream is reset
+	H2Abort(usize),
 	Stop,
 }
 
@@ -91,6 +96,9 @@ impl Op {
 			Op::WsHalfUpgrade(true) => "ws-upgrade-dropped-before-response",
 			Op::WsHalfUpgrade(false) => "ws-upgrade-dropped-after-response",
 			Op::WsBadHandshake => "ws-bad-handshake",
+			Op::H2Quick => "http2-call",
+			Op::H2Hold => "http2-held-call",
+			Op::H2Abort(_) => "http2-stream-reset",
 			Op::Stop => "server-stop",
 		}
 	}
@@ -184,6 +192,7 @@ async fn run_spec(spec: &Spec) -> Out {
 	let mut served: usize = 0;
 	let mut tag_n = 0usize;
 	let mut stopped = false;
+	let mut h2: Option<hyper::client::conn::http2::SendRequest<http_body_util::Full<Bytes>>> = None;
 	macro_rules! bad {
 		($sig:expr, $($arg:tt)*) => { out.violations.push(($sig.to_string(), format!($($arg)*))) };
 	}
@@ -221,6 +230,80 @@ async fn run_spec(spec: &Spec) -> Out {
 					}
 				}
 			}
+			Op::H2Quick | Op::H2Hold => {
+				if h2.as_ref().is_none_or(|s| s.is_closed()) {
+					let (io, _jh) = srv.raw_conn();
+					match hyper::client::conn::http2::handshake(hyper_util::rt::TokioExecutor::new(), hyper_util::rt::TokioIo::new(io)).await {
+						Ok((send, conn)) => {
+							tokio::spawn(async move {
+								let _ = conn.await;
+							});
+							h2 = Some(send);
+						}
+						Err(e) => {
+							out.history.push(format!("{oi}: http2 handshake failed ({e}); step skipped"));
+							continue;
+						}
+					}
+				}
+				let mut send = h2.clone().unwrap();
+				out.attempts += 1;
+				let hold = *op == Op::H2Hold;
+				tag_n += 1;
+				let tag = format!("h{tag_n}");
+				let body = if hold { json!({"jsonrpc": "2.0", "id": 1, "method": "hold", "params": [tag]}).to_string() } else { json!({"jsonrpc": "2.0", "id": 1, "method": "probe"}).to_string() };
+				let task = tokio::spawn(async move {
+					match send.send_request(post(body)).await {
+						Ok(resp) => {
+							let status = resp.status().as_u16();
+							let body = http_body_util::BodyExt::collect(resp.into_body()).await.map(|b| b.to_bytes().to_vec()).unwrap_or_default();
+							jrv::memsrv::HttpReply { status, headers: vec![], body, error: None }
+						}
+						Err(e) => jrv::memsrv::HttpReply { status: 0, headers: vec![], body: vec![], error: Some(e.to_string()) },
+					}
+				});
+				settle(2).await;
+				if !hold {
+					match tokio::time::timeout(Duration::from_secs(30), task).await {
+						Ok(Ok(rep)) => {
+							out.history.push(format!("{oi}: http2 call with {served}/{} served -> status {}", spec.max, rep.status));
+							if full {
+								out.refused += 1;
+								if rep.status != 429 {
+									bad!("not-refused-429/http2-call", "{served} of {} slots in use but the stream got status {} {:?}", spec.max, rep.status, rep.error);
+								}
+							} else {
+								out.admitted += 1;
+								if rep.status != 200 {
+									bad!("refused-with-free-slot/http2-call", "{served} of {} slots in use but the stream got status {} {:?}", spec.max, rep.status, rep.error);
+								} else if rep.json().map(|v| v["result"].clone()) != Some(json!(served as u64 + 1)) {
+									bad!("occupancy-wrong/during-http2-call", "probe reported {:?}, model says {}", rep.json(), served + 1);
+								}
+							}
+						}
+						other => bad!("call-not-completed/http2-call", "{:?}", other.map(|r| r.map(|x| x.status))),
+					}
+				} else if full {
+					out.refused += 1;
+					match tokio::time::timeout(Duration::from_secs(30), task).await {
+						Ok(Ok(rep)) if rep.status == 429 => {}
+						other => bad!("not-refused-429/http2-held-call", "{served} of {} slots in use: {:?}", spec.max, other.map(|r| r.map(|x| x.status))),
+					}
+					if sh.started.lock().unwrap().len() != before_started {
+						bad!("handler-ran-for-refused/http2-held-call", "a refused stream reached the handler");
+					}
+				} else {
+					out.admitted += 1;
+					if !sh.started.lock().unwrap().contains(&tag) {
+						bad!("refused-with-free-slot/http2-held-call", "{served} of {} slots in use but the held stream did not start", spec.max);
+						task.abort();
+					} else {
+						served += 1;
+						held.push(Some(Held { tag: tag.clone(), task }));
+					}
+					out.history.push(format!("{oi}: http2 held stream {tag} -> served {served}"));
+				}
+			}
 			Op::HttpHold => {
 				out.attempts += 1;
 				tag_n += 1;
@@ -250,7 +333,7 @@ async fn run_spec(spec: &Spec) -> Out {
 				}
 				out.history.push(format!("{oi}: http held call {tag} -> served {served}"));
 			}
-			Op::HttpRelease(k) | Op::HttpAbort(k) => {
+			Op::HttpRelease(k) | Op::HttpAbort(k) | Op::H2Abort(k) => {
 				let live: Vec<usize> = held.iter().enumerate().filter(|(_, h)| h.is_some()).map(|(i, _)| i).collect();
 				if live.is_empty() {
 					continue;
@@ -522,7 +605,7 @@ fn gen_spec(seed: u64) -> Spec {
 	let n = 3 + r.usize(if cfg!(miri) { 4 } else { 14 });
 	let mut ops = Vec::new();
 	for i in 0..n {
-		let op = match r.below(22) {
+		let op = match r.below(23) {
 			0 | 1 => Op::HttpQuick,
 			2..=4 => Op::HttpHold,
 			5 | 6 => Op::HttpRelease(r.usize(4)),
@@ -535,6 +618,11 @@ fn gen_spec(seed: u64) -> Spec {
 			17 => Op::WsAbort(r.usize(4)),
 			18 => Op::WsAbortMidCall(r.usize(4)),
 			19 => if r.chance(1, 3) { Op::WsBadHandshake } else { Op::WsHalfUpgrade(r.bool()) },
+			20 => match r.below(4) {
+				0 => Op::H2Quick,
+				1 | 2 => Op::H2Hold,
+				_ => Op::H2Abort(r.usize(4)),
+			},
 			_ => {
 				if i * 3 >= n * 2 {
 					Op::Stop
@@ -600,6 +688,9 @@ fn cycle_specs(reps: usize) -> Vec<Spec> {
 		vec![Op::WsHalfUpgrade(false)],
 		vec![Op::WsBadHandshake],
 		vec![Op::HttpQuick, Op::HttpGet],
+		vec![Op::H2Hold, Op::H2Abort(0)],
+		vec![Op::H2Hold, Op::HttpRelease(0)],
+		vec![Op::H2Quick],
 	];
 	let mut v = Vec::new();
 	for p in paths {
